@@ -48,6 +48,10 @@ type Case struct {
 	Via     string `json:"via,omitempty"`
 	Format  string `json:"format,omitempty"`
 	Place   string `json:"place,omitempty"`
+	// Earlier (verifier family): references / names served by the SAME verifier object before the
+	// judged call (the artifact and its digest are the same throughout - one image pushed to
+	// several repositories); which statement applies depends on the judged call's reference only
+	Earlier []string `json:"earlier,omitempty"`
 }
 
 // ---------- alphabets ----------
